@@ -277,7 +277,8 @@ def sampled_case(draw, fmt, max_records, W):
         interesting.update([b - 1, b, b + 1, b + hdr])
     interesting.update([size - 1, size, size + 1, size + 2])
     interesting = sorted(x for x in interesting if 1 <= x <= size + 2)
-    k = draw(st.one_of(st.sampled_from(interesting), st.integers(1, size + 2)))
+    # (very small chunk sizes on files of tens of kilobytes cost quadratic time without showing anything new)
+    k = max(draw(st.one_of(st.sampled_from(interesting), st.integers(1, size + 2))), size // 2000)
     case.update(k=k, gzip=draw(st.booleans()), lazy=draw(st.booleans()))
     if draw(st.integers(0, 9)) == 0:
         case["via_path"] = True
